@@ -124,6 +124,9 @@ func hexName(code uint16) string { return "x" + strconv.FormatUint(uint64(code),
 type Spelling struct {
 	// Pick returns a number in [0,n) for a named choice; nil = always 0.
 	Pick func(label string, n int) int
+	// Padded is set by the emitter when it wrote a note number with leading zeros: whether such a number has to be
+	// accepted is not specified, only what it means if it is
+	Padded bool
 }
 
 func (s *Spelling) pick(label string, n int) int {
@@ -197,6 +200,11 @@ var pitchNames = []string{"C", "C#", "D", "D#", "E", "F", "F#", "G", "G#", "A", 
 
 func (s *Spelling) noteText(note int) string {
 	if note < 0 || note > 127 || s.pick("notestyle", 3) == 0 {
+		// a number; now and then written with leading zeros (still a decimal number: "010" is ten)
+		if note >= 0 && s.pick("notepad", 6) == 5 {
+			s.Padded = true
+			return fmt.Sprintf("%0*d", 2+s.pick("notepadwidth", 3), note)
+		}
 		return strconv.Itoa(note)
 	}
 	name := pitchNames[note%12] + strconv.Itoa(note/12-2)
